@@ -295,11 +295,11 @@ fn run_order(p: &Project, sources: &[&File], order: &[usize]) -> RunOut {
     let dir = scratch_dir("c18");
     write_project(dir.path(), p);
     let args: Vec<String> = order.iter().map(|i| source_arg(p, sources[*i])).collect();
-    let r = translate::run_cli(dir.path(), &translate::foreign_types(), &args, 30);
+    let r = translate::run_cli(dir.path(), &translate::foreign_types(), &args, 20);
     let mut timed_out = r.timed_out;
     let r = if r.timed_out {
         // confirm alone, generously, before calling it a hang
-        let r2 = translate::run_cli(dir.path(), &translate::foreign_types(), &args, 120);
+        let r2 = translate::run_cli(dir.path(), &translate::foreign_types(), &args, 60);
         timed_out = r2.timed_out;
         r2
     } else {
@@ -337,7 +337,7 @@ pub fn check_project(ch_seq: &[u32]) -> Result<(bool, u64), Failure> {
     let nruns = runs.len() as u64;
     for (r, o) in runs.iter().zip(&orders) {
         if r.timed_out {
-            return Err(fail("does-not-terminate", format!("generate-ui did not finish within 120 s for the source order {:?} (normal: < 0.5 s)", o), json!(null)));
+            return Err(fail("does-not-terminate", format!("generate-ui did not finish within 60 s for the source order {:?} (normal: < 0.5 s)", o), json!(null)));
         }
         if !matches!(r.status, Some(0) | Some(1)) {
             return Err(fail("abnormal-exit", format!("exit status {:?} for the source order {:?}", r.status, o), json!({"stderr": r.stderr.chars().take(1500).collect::<String>()})));
@@ -436,18 +436,33 @@ pub fn replay(v: &Value) -> Outcome {
 pub fn run(env: &Env, known: &Known, started: Instant, replayed: u64, replay_violations: Vec<Violation>) -> i32 {
     let n = env.tier.pick(1200, 30000);
     let seqs = sample_choices(env, PID, "projects", n, 200);
-    let res: Vec<(Result<(bool, u64), Failure>, Vec<&'static str>)> = seqs
+    // once some project has failed the remaining ones are skipped: a change that makes every run slow
+    // (or every project fail) must end in a report, not in the watchdog
+    let failures = std::sync::atomic::AtomicUsize::new(0);
+    let res: Vec<(usize, Result<(bool, u64), Failure>, Vec<&'static str>)> = seqs
         .par_iter()
-        .map(|c| {
+        .enumerate()
+        .filter_map(|(i, c)| {
+            if failures.load(std::sync::atomic::Ordering::Relaxed) >= 3 {
+                return None;
+            }
             let mut ch = Chooser::new(c);
             let _ = gen_project(&mut ch);
-            (check_project(c), ch.labels.iter().copied().collect())
+            let r = check_project(c);
+            if r.is_err() {
+                failures.fetch_add(1, std::sync::atomic::Ordering::Relaxed);
+            }
+            Some((i, r, ch.labels.iter().copied().collect()))
         })
         .collect();
     let mut stats = Stats::default();
     let mut violations = vec![];
     let mut cli_runs = 0u64;
-    for ((r, labels), c) in res.into_iter().zip(&seqs) {
+    if res.len() < seqs.len() {
+        stats.counters.insert("projects_skipped_after_first_failures".into(), (seqs.len() - res.len()) as u64);
+    }
+    for (i, r, labels) in res {
+        let c = &seqs[i];
         stats.evaluations += 1;
         for l in labels {
             *stats.labels.entry(l.to_owned()).or_default() += 1;
@@ -468,7 +483,9 @@ pub fn run(env: &Env, known: &Known, started: Instant, replayed: u64, replay_vio
                     known.announce(PID, &f.key);
                 } else if violations.len() < 6 {
                     let key = f.key.clone();
-                    let small = shrink_choices(c.clone(), 30, |cand| matches!(check_project(cand), Err(ff) if ff.key == key));
+                    // (a failure that takes minutes to observe is reported as found, not shrunk)
+                    let slow = key.contains("does-not-terminate");
+                    let small = if slow { c.clone() } else { shrink_choices(c.clone(), 30, |cand| matches!(check_project(cand), Err(ff) if ff.key == key)) };
                     violations.push(Violation { failure: f, choices: Some(small), part: "projects".into() });
                 }
             }
@@ -478,7 +495,7 @@ pub fn run(env: &Env, known: &Known, started: Instant, replayed: u64, replay_vio
     translate::remove_foreign_types_file();
     let ev = Evidence {
         env, pid: PID, level: "exploration",
-        rule: "projects of 1-4 directories (nested or siblings) with arbitrary mutual import-by-string relations (also \".\"), 0-6 component files whose root type is a Qt widget class or an earlier visible component (chains), unused troublemakers in the directories (mutually inheriting pair, self-inheriting component, component with a missing base), and 1-4 sources that instantiate 0-5 visible components (repeats, also as their own root type) with a property of the component's Qt base class; a quarter of the projects carry one invalid use (component without widget base through a cycle, component of a directory that is not imported, missing component, import of a missing directory). The real binary is run for every order of the source arguments (all permutations up to 3 sources, 6 drawn ones beyond), each in a fresh copy of the project. Oracle: every run terminates (30 s watchdog, confirmed with 120 s) with status 0/1; the status and the bytes written for a source are the same in every order; valid projects are accepted and for every source <customwidgets> as a set equals {(X, type of X.qml's root object, lower(X).h)} over the distinct instantiated components, each once, every instance is in the form with its base-class property; projects with an invalid use are rejected. Non-trivial = >= 2 directories with a component used from an imported directory, or a cyclic component present; distinct by choice sequence.",
+        rule: "projects of 1-4 directories (nested or siblings) with arbitrary mutual import-by-string relations (also \".\"), 0-6 component files whose root type is a Qt widget class or an earlier visible component (chains), unused troublemakers in the directories (mutually inheriting pair, self-inheriting component, component with a missing base), and 1-4 sources that instantiate 0-5 visible components (repeats, also as their own root type) with a property of the component's Qt base class; a quarter of the projects carry one invalid use (component without widget base through a cycle, component of a directory that is not imported, missing component, import of a missing directory). The real binary is run for every order of the source arguments (all permutations up to 3 sources, 6 drawn ones beyond), each in a fresh copy of the project. Oracle: every run terminates (20 s watchdog, confirmed with 60 s) with status 0/1; the status and the bytes written for a source are the same in every order; valid projects are accepted and for every source <customwidgets> as a set equals {(X, type of X.qml's root object, lower(X).h)} over the distinct instantiated components, each once, every instance is in the form with its base-class property; projects with an invalid use are rejected. Non-trivial = >= 2 directories with a component used from an imported directory, or a cyclic component present; distinct by choice sequence.",
         assumptions: vec!["name clashes between an imported directory and the own directory are not generated (precedence is not specified)".into(), "with a failing source the tool stops at it by design, so presence of later outputs is only compared for successful invocations; contents are compared whenever written".into()],
         extra: json!({}),
     };
